@@ -115,12 +115,32 @@ class CXX2C(Emitter, ExprMixin, LibMixin, StmtMixin):
             if s: L.append(s)
         L.append('/*@PRELUDE@*/')
         for cn, p in self.autostubs.items():
-            L.append(p[:-1] + '\n/*@CONTRACT:%s@*/;' % cn)
+            # auto-stub = assumed contract "returns an arbitrary value, no effect on verified state".
+            # Specs override by defining HAVE_<name> (own body in the prelude) or by a @contract used
+            # through --replace-call-with-contract (the default body is then ignored).
+            L.append('#ifndef HAVE_%s' % cn)
+            L.append(p[:-1] + '\n/*@CONTRACT:%s@*/' % cn)
+            L.append(self.default_stub_body(p))
+            L.append('#else')
+            L.append(p)
+            L.append('#endif')
         for p in self.protos.values(): L.append(p)
         for b in self.bodies.values():
             L.append(''); L.append(b)
         L.append('/*@HARNESS@*/')
         return '\n'.join(L) + '\n'
+
+    def default_stub_body(self, proto):
+        m = re.match(r'(.*?)\s*(\w+)\((.*)\);$', proto, re.S)
+        rt = m.group(1).strip(); params = m.group(3)
+        if rt == 'void': return '{ }'
+        if rt.endswith('*'):
+            base = rt[:-1].replace('const ', '').strip()
+            pm = re.match(r'(const )?%s\* this_' % re.escape(base), params)
+            if pm and not pm.group(1):
+                return '{ return this_; }   /* reference result: the object itself */'
+            return '{ static %s ghost_result_; %s fresh_; ghost_result_ = fresh_; return &ghost_result_; }' % (base, base)
+        return '{ %s nondet_result_; return nondet_result_; }' % rt
 
     def opaque_records(self):
         out = set()
